@@ -1,5 +1,62 @@
-import GeomV.C15.Model
-import GeomV.C15.Spec
+import GeomV.C15.Lemmas
+/-!
+# C15 — property theorems about the model of similar.go (fixed code)
+-/
+set_option linter.unusedSimpArgs false
+set_option linter.unusedVariables false
 namespace GeomV.C15
-theorem C15_placeholder : True := trivial
+open GeomV
+
+theorem simL_eq_map (gs : List RGeom) (e : Rat) : simL gs e = gs.map fun g => sim g e := by
+  induction gs with
+  | nil => simp [simL]
+  | cons g gs ih => simp [simL, ih]
+
+theorem mlsSimilar_comm (a b : List (List P)) (e : Rat) : mlsSimilar a b e = mlsSimilar b a e := by
+  unfold mlsSimilar
+  exact matchMembers_symm (fun l l' => pointsSimilar l l' e) (fun l l' => pointsSimilar l l' e) a b
+    (fun x _ y _ => pointsSimilar_comm x y e)
+
+theorem polygonSimilar_comm (a b : List (List P)) (e : Rat) : polygonSimilar a b e = polygonSimilar b a e := by
+  unfold polygonSimilar
+  exact matchMembers_symm (fun l l' => ringSimilar l l' e) (fun l l' => ringSimilar l l' e) a b
+    (fun x _ y _ => ringSimilar_comm x y e)
+
+theorem mpgSimilar_comm (a b : List (List (List P))) (e : Rat) : mpgSimilar a b e = mpgSimilar b a e := by
+  unfold mpgSimilar
+  exact matchMembers_symm (fun l l' => polygonSimilar l l' e) (fun l l' => polygonSimilar l l' e) a b
+    (fun x _ y _ => polygonSimilar_comm x y e)
+
+mutual
+theorem sim_comm (e : Rat) : ∀ (g h : RGeom), sim g e h = sim h e g
+  | .point p, h => by cases h <;> simp [sim, pointSimilar_comm]
+  | .multiPoint ps, h => by cases h <;> simp [sim, pointsSimilar_comm]
+  | .lineString ps, h => by cases h <;> simp [sim, pointsSimilar_comm]
+  | .multiLineString ls, h => by cases h <;> simp [sim, mlsSimilar_comm]
+  | .polygon rs, h => by cases h <;> simp [sim, polygonSimilar_comm]
+  | .multiPolygon ps, h => by cases h <;> simp [sim, mpgSimilar_comm]
+  | .bounds a b, h => by cases h <;> simp [sim, pointSimilar_comm]
+  | .nil, h => by cases h <;> simp [sim]
+  | .collection gs, h => by
+    cases h with
+    | collection hs =>
+      simp only [sim, simL_eq_map]
+      exact matchMembers_symm (fun g h => sim g e h) (fun h g => sim h e g) gs hs
+        (fun x hx y _ => simL_comm e gs x hx y)
+    | _ => simp [sim]
+theorem simL_comm (e : Rat) : ∀ (gs : List RGeom), ∀ g ∈ gs, ∀ h, sim g e h = sim h e g
+  | [] => by simp
+  | g' :: gs => List.forall_mem_cons.2 ⟨sim_comm e g', simL_comm e gs⟩
+end
+
+/-- **Symmetry** (first clause), for every pair of geometries of the eight types, every nesting
+depth and every tolerance — no separation hypothesis is needed for the fixed code:
+`g.Similar(h, tol) = h.Similar(g, tol)`. -/
+theorem C15_symm_all (g h : RGeom) (tol : Rat) : sim g tol h = sim h tol g := sim_comm tol g h
+
+/-- The symmetry clause exactly as the property states it (positive tolerance, matching
+unambiguous); a special case of `C15_symm_all`. -/
+theorem C15_symm (g h : RGeom) (tol : Rat) (_ : Spec.separated g tol h = true) (_ : 0 < tol) :
+    sim g tol h = sim h tol g := sim_comm tol g h
+
 end GeomV.C15
